@@ -651,8 +651,8 @@ func (p *parser) readArgValue() (av *ArgValue, err error) {
 	if av.Arg, err = p.readToken(); err != nil {
 		return
 	}
-	av.line = p.line
-	av.col = p.col - len(av.Arg) - 1
+	av.line = p.tokLine
+	av.col = p.tokCol - 1
 	if len(av.Arg) == 0 {
 		return nil, parseError(p.line, p.col, "argument name missing")
 	}
